@@ -25,6 +25,7 @@ CHECKS = {
     "C03": ("exploration", "seeded exploration of log shapes (v0/v1/v2, wrappers, compaction gaps, empty/control batches, byte-cut responses) x concurrent getone/getmany/seek/pause/resume/position tasks x fetch faults; every delivery and position checked online against a sequential reference reader; bounded liveness after faults and appends stop", "DESIGN.md 5 C03"),
     "C08": ("exploration", "same engine over generated transactional logs (<=4 producers, committed/aborted/open transactions, compaction, solitary abort markers) at both isolation levels; reference reader from the model's aborted-transaction index; progress past filtered ranges", "DESIGN.md 5 C08"),
     "C10": ("fault_enumeration", "storage / transport corruption enumerated over a corpus of ~45 valid buffers (v0/v1/v2, plain and every codec, control / transactional / empty batches, mixed formats) written by an independent codec and by the builders under test: every truncation point, a per-tier value set for every byte (all 255 in thorough) with and without repairing the v2 checksum, boundary values for every fixed-width length / count / offset / epoch field, hostile varints in the records section, compressed payloads with inconsistent or garbage inner content, short random frames; each corrupted buffer is decoded with and without checksum validation by the compiled codec - rebuilt from the working tree with AddressSanitizer, case ids journalled so an abort names the input - and by the pure-Python codec: no crash, no ASan report, no SystemError / MemoryError, termination, and a flipped checksum-covered byte is never reported valid; a sample of corrupted segments is also served by the simulated broker to a real consumer (fetch task must survive, consumer usable after seeking past the segment)", "DESIGN.md 5 C10"),
+    "C11": ("exploration", "PARTIAL SCOPE (stated): the clauses of C11 that involve a peer, for every message the producer, consumer, group member, transactional producer and connection exchange with a broker. Brokers speak through an independent, hand-written wire codec and advertise a seeded (min,max) range per API; fault-free workloads of the other engines run twice (newest versions vs random ranges that still overlap the client's): every request must carry the highest common version inside the advertised range, parse under the schema of exactly that version with no trailing bytes and re-encode byte-identically, every reply encoded with that version's schema must be usable (a workload that passes its own oracles in the control run must pass them under the ranged table); feature runs pit transactional id / isolation level / coordinator type / timestamp search against brokers too old to express them and clients against disjoint ranges and ranges inside a hole of the client's version list (no request may be written, the call must fail, not hang). NOT decided here (pure functions of their input, no peer, no schedule): round-tripping all in-range values of all 100+ structs, admin-only structs, tagged fields and flexible-version primitives no simulated exchange uses, authorized operations", "DESIGN.md 5 C11"),
     "C12": ("exploration", "real AIOKafkaConnection / AIOKafkaClient.send against a scripted peer; the finite single-fault space (every 1-cut split of short responses, EOF/reset at every byte) is enumerated first, then seeded search over pipelining, timeouts, cancellation, wrong/duplicate/unsolicited ids, malformed frames, counter wrap", "DESIGN.md 5 C12"),
     "C13": ("exploration", "group-less consumers: policies earliest/latest/none x isolation levels x ListOffsets v0-v3 x retriable lookup faults x seek() racing with the reset; first position / first record must match a ListOffsets reply actually served, out-of-range seeks must reset or raise per policy; every fourth run is a 1-2 member consumer group against the coordinator model with committed offsets absent / inside / beyond the log end, growing logs, member and coordinator faults: each assignment must start at a committed offset the coordinator served, judged against the log range at lookup time, else per policy", "DESIGN.md 5 C13"),
     "C04": ("exploration", "consumer groups of 1-4 real members (plus late joiners and replacements) on one loop against the group-coordinator model: members killed (no leave, no final commit), stopped, restarted, session-expired, coordinator moved / loading, commit replies failing or delayed, data-partition leaders moving; plain and rich logs (transactions, markers, compaction, legacy/compressed batches) at both isolation levels; every commit the coordinator accepted is checked against the records that member had been handed before it wrote the request, every assignment must start at an offset the brokers served (a reset only after a delivered 'no committed offset' answer), and after the quiet period the group as a whole has delivered every visible record", "DESIGN.md 5 C04"),
@@ -49,9 +50,7 @@ def main():
             "level_note": NOTE, "technique": TECH_C10 if pid == "C10" else TECH})
     claimed = set(CHECKS)
     na = [{"property_id": p, "reason": r} for p, r in NA]
-    for pid in ("C11",):
-        if pid not in claimed:
-            na.append({"property_id": pid, "reason": "not claimed yet: its check is still under construction in this session (see DESIGN.md 5); will move to checks when it lands"})
+
     m = {
         "version": 1,
         "setup_cmd": "/venv/bin/python -c \"import Cython, cramjam, async_timeout; print('ok')\" && test -x /verif/check",
